@@ -1,4 +1,5 @@
 """C03 driver: solve_lp / solve_lp_interior on integer LPs, minimize and maximize."""
+from drivers.labels import cont_mode, seq1, seq2
 import math
 import random
 
@@ -48,7 +49,8 @@ def run_lp(case):
     for solver, fn in (("simplex", solve_lp), ("interior", solve_lp_interior)):
         for minimize in (True, False):
             try:
-                events.append(_ev(solver, fn(cf, Af, bf, minimize=minimize), minimize, n))
+                cm = cont_mode(case)
+                events.append(_ev(solver, fn(seq1(cf, cm), seq2(Af, cm), seq1(bf, cm), minimize=minimize), minimize, n))
             except Exception as ex:  # noqa: BLE001
                 events.append({"e": "raise", "solver": solver, "what": type(ex).__name__})
     # the iteration limit: "short of its iteration limit, which it reports as MAX_ITER" - every other verdict must stay true
